@@ -113,7 +113,7 @@ pub fn explore(ex: &Ex) {
     {
         use gen::{arr, b, map};
         let mut l = Local::default();
-        for n in [17usize, 40, 65, 100, 257] {
+        for n in [9usize, 17, 33, 65, 100, 257] {
             for bad_at in [None, Some(0), Some(n / 2), Some(n - 1)] {
                 let sigs: Vec<Item> = (0..n).map(|k| if Some(k) == bad_at { gen::sig_bad_unprotected() } else if k % 2 == 0 { gen::sig_valid() } else { gen::sig_valid2() }).collect();
                 let recs: Vec<Item> = (0..n).map(|k| if Some(k) == bad_at { arr(vec![b(b""), map(vec![]), gen::u(1)]) } else { arr(vec![b(b""), map(vec![(gen::u(1), gen::i(-6))]), b(b"ct")]) }).collect();
